@@ -67,16 +67,25 @@ func VH_C02_chain_conservation() {
 		amt := vhAmt("amt" + verifrt.Itoa(k))
 		verifrt.Assume(!amt.Empty())
 		trx := vhTrxFor(k, p[0], p[1], amt)
+		if verifrt.Choose("with-data"+verifrt.Itoa(k), 2) == 1 {
+			trx.Data = []byte{1} // a contract that also moves spice
+		}
 		tip, err := l.ab.CreateLeaf(context.Background(), &trx)
 		if err == nil {
 			offered = append(offered, vhOffered{trx: trx, vertex: tip.Hash})
 		}
 	}
+	l.vhConservation(offered, supply, "chain")
+	verifrt.Reach("C02/chain/end")
+}
+
+// vhConservation: no wallet overdrawn on the confirmed set; reported balances add up to the supply.
+func (l *vhLedger) vhConservation(offered []vhOffered, supply spice.Melange, where string) {
 	total := vhZero()
 	allOK := true
 	for _, q := range []string{"A", "B", "C"} {
 		in, out := l.vhConfirmedFlows(offered, q)
-		verifrt.Assert(verifrt.ZGe(in, out), "C02/chain/no-wallet-overdrawn-on-the-confirmed-set")
+		verifrt.Assert(verifrt.ZGe(in, out), "C02/"+where+"/no-wallet-overdrawn-on-the-confirmed-set")
 		bal, err := l.ab.CalculateBalance(context.Background(), q)
 		if err != nil {
 			allOK = false
@@ -85,9 +94,44 @@ func VH_C02_chain_conservation() {
 		}
 	}
 	if allOK {
-		verifrt.Assert(verifrt.ZEq(total, vhZ(supply)), "C02/chain/reported-balances-add-up-to-the-genesis-supply")
+		verifrt.Assert(verifrt.ZEq(total, vhZ(supply)), "C02/"+where+"/reported-balances-add-up-to-the-genesis-supply")
 	}
-	verifrt.Reach("C02/chain/end")
+}
+
+// VH_C02_gossip_chain: the same history arriving by gossip from another node (AddLeaf), each delivery with
+// a live, an already cancelled or a late-cancelled context: an interrupted validation must not confirm a spend.
+func VH_C02_gossip_chain() {
+	verifrt.PermuteMaps(2)
+	supply := vhAmt("supply")
+	verifrt.Assume(!supply.Empty())
+	l := vhGenesisLedger("A", supply)
+	offered := []vhOffered{{trx: l.recs[0].v.Transaction, vertex: l.recs[0].v.Hash}}
+	last := l.recs[0].v.Hash
+	for k := 1; k <= vhC02Steps(); k++ {
+		p := vhPatterns[verifrt.Choose("pattern"+verifrt.Itoa(k), len(vhPatterns))]
+		amt := vhAmt("amt" + verifrt.Itoa(k))
+		verifrt.Assume(!amt.Empty())
+		in := vhTransfer(k, p[0], p[1], amt, nil, vhPeerAddr, uint64(50+k))
+		in.LeftParentHash, in.RightParentHash = last, last
+		var ctx context.Context = context.Background()
+		if c := verifrt.Choose("context"+verifrt.Itoa(k), 3); c > 0 {
+			ctx = vhNewCtx(c - 1)
+		}
+		if err := l.ab.AddLeaf(ctx, in); err == nil {
+			offered = append(offered, vhOffered{trx: in.Transaction, vertex: in.Hash})
+			last = in.Hash
+		} else if _, e := l.ab.dag.GetVertex(string(last[:])); e != nil {
+			// the refused delivery took its unconfirmable parent with it: continue from the surviving tip
+			for i := len(offered) - 1; i >= 0; i-- {
+				if _, e := l.ab.dag.GetVertex(string(offered[i].vertex[:])); e == nil {
+					last = offered[i].vertex
+					break
+				}
+			}
+		}
+	}
+	l.vhConservation(offered, supply, "gossip-chain")
+	verifrt.Reach("C02/gossip-chain/end")
 }
 
 // VH_C02_merge: two spends of the same funds sealed as siblings (one locally, one arriving by gossip
